@@ -470,7 +470,18 @@ impl Worker {
             return;
         }
 
-        if write_offset as usize + events_size > writer_set.segment_size
+        // With compression an incompressible event is stored slightly larger than its plain size
+        // (zstd's worst case plus the 4 byte original size), which the estimate above ignores.
+        let compression_margin = if writer_set.compression {
+            events_size / 256 + events.len() * 68
+        } else {
+            0
+        };
+        let is_empty = write_offset as usize <= SEGMENT_HEADER_SIZE;
+        if (write_offset as usize + events_size > writer_set.segment_size
+            || (!is_empty
+                && write_offset as usize + events_size + compression_margin
+                    > writer_set.segment_size))
             && let Err(err) = writer_set.rollover()
         {
             let _ = reply_tx.send(Err(err));
